@@ -107,10 +107,10 @@ func c01Check(ctx *vfCtx, c c01Case) {
 
 	if perr != nil {
 		// ---- invalid text ----
-		if fl.Depth > 5000 {
+		if fl.Depth > 40000 {
 			// the reference parser stops following the nesting there; whether such a text is valid is
 			// not judged (encoding/json has a limit of its own, 10000 levels): no panic is all that is asked
-			ctx.Class("nested-deeper-than-5000(unjudged)")
+			ctx.Class("nested-deeper-than-40000(unjudged)")
 			ctx.Unjudged("nested deeper than the reference parser follows")
 			return
 		}
@@ -462,13 +462,18 @@ func c01EnumEscapes(size, shard, nshards int, emit func(c01Case)) {
 // n crosses every power of two up to 4096 and their neighbours (recursion guards, fixed-size stacks).
 func c01EnumDeep(size, shard, nshards int, emit func(c01Case)) {
 	depths := []int{1, 2, 3, 7, 8, 9, 15, 16, 17, 31, 32, 33, 63, 64, 65, 66, 67, 100, 127, 128, 129, 255, 256, 257, 500, 1000}
+	// (10000 is where encoding/json's own scanner gives up; an event of 64 KiB holds about 32000 levels)
+	depths = append(depths, 10001)
 	if size > 1 {
-		depths = append(depths, 1023, 1024, 1025, 2047, 2048, 2049, 4096, 4999, 5000, 9999, 10000, 10001)
+		depths = append(depths, 1023, 1024, 1025, 2047, 2048, 2049, 4096, 4999, 5000, 9999, 10000, 20000, 32000)
 	}
 	idx := 0
 	for _, d := range depths {
 		for _, leaf := range []string{"1", "-0", "1.5", "1e3", "9007199254740992", `"\u00e9"`, `{"b":1,"a":-0}`} {
 			for _, shape := range []string{"[", "{", "[{"} {
+				if d > 5000 && !(shape == "[" && (leaf == "1" || leaf == "1.5")) {
+					continue // beyond 5000 levels: two array-only texts per depth (the library's work grows with the square of the depth)
+				}
 				if idx%nshards == shard {
 					var open, close strings.Builder
 					for i := 0; i < d; i++ {
@@ -498,7 +503,7 @@ func init() {
 	vfRapid("C01/values", rule, 3000, 100000, 16, c01GenValue, c01Check)
 	vfRapid("C01/mutated", rule, 3000, 100000, 16, c01GenMutated, c01Check)
 	vfEnum("C01/escape-sweep", rule+" Enumerates every BMP scalar value (and a stride of astral ones) as \\uXXXX escape in key and value position, against its literal spelling.", 1, 2, 16, c01EnumEscapes, c01Check)
-	vfEnum("C01/deep-nesting", rule+" Enumerates 7 leaves (plain, -0, fraction, exponent, out-of-range, escaped string, unsorted object) below 1..1000 (thorough: ..10001; judged up to 5000, beyond that only for not panicking) nested arrays / objects, for the plain and the enforced variants.", 1, 2, 8, c01EnumDeep, c01Check)
+	vfEnum("C01/deep-nesting", rule+" Enumerates 7 leaves (plain, -0, fraction, exponent, out-of-range, escaped string, unsorted object) below 1..10001 (thorough: ..32000; judged up to 40000 levels) nested arrays / objects, for the plain and the enforced variants.", 1, 2, 8, c01EnumDeep, c01Check)
 	vfEnum("C01/short-texts", rule+" Enumerates every text up to the size bound over the alphabet `{}[]\"\\:,-01.eEu a` (17 symbols).", 4, 6, 16, c01EnumShort, c01Check)
 }
 
